@@ -707,6 +707,8 @@ def check(run):
         il = G.impl_line(cs)
         if n_t % 9 == 4:
             il = "EF" + il[1:]            # the same configuration read from a file
+        if n_t % 11 == 5:
+            il = il.replace("colvar {;  name c;", "colvar {;", 1)      # an unnamed variable (default name)
         i = impl.add(il); m = mod.add(G.model_line(cs))
         jobs.append(("tie", cs, i, m))
     # sessions: (a) a second variable on the same atoms is deleted, (b) a rejected configuration in the middle
@@ -880,7 +882,14 @@ def check(run):
                         impl.add("R %d" % starts[j])
                     idx.append(impl.add(G.pos_line(fr)))
         fresh = [impl.add(G.impl_line([c], atoms=frames[0])) for frames in runs]
-        jobs.append(("plruns", {"case": c, "runs": runs, "starts": starts, "idx": idx, "fresh": fresh}, None, None))
+        t0 = G.model_tokens(c); gpos = t0.index("G")
+        t = ["selfCoordNumRuns"] + t0[1:6] + ["%d" % pr["plfreq"]] + t0[6:gpos] + ["%d" % len(runs)]
+        for frames in runs:
+            t.append("%d" % len(frames))
+            for fr in frames:
+                tf = G.model_tokens(dict(c, atoms=fr)); t += tf[tf.index("G"):]
+        m = mod.add(" ".join(t))
+        jobs.append(("plruns", {"case": c, "runs": runs, "starts": starts, "idx": idx, "fresh": fresh}, None, m))
     # eigenvector with differenceVector / normalizeVector
     for k in range(8 * scale):
         c = gen_ref_case(r, "eigenvector")
@@ -1057,7 +1066,7 @@ def check(run):
         elif kind == "plruns":
             c = obj["case"]; f = c["params"]["plfreq"]
             run.count("plruns/" + case_key(c) + "/%s" % obj["starts"], True)
-            run.dist("tie:coordNum:pairlist:runs")
+            run.dist("tie:%s:pairlist:runs" % c["comp"])
             vals = [parse_impl(iout[k]) for k in obj["idx"]]
             b = parse_model(mout[m]) if m is not None else None
             lo = min(obj["idx"]); hi = max(obj["idx"])
@@ -1077,7 +1086,7 @@ def check(run):
                         break
                     pos += len(frames)
                 if m is not None and (b is None or not vclose(a, b, TOL)):
-                    run.mismatch("value:coordNum:pairlist:runs", impl.lines[lo][:200], a, b)
+                    run.mismatch("value:%s:pairlist:runs" % c["comp"], impl.lines[lo][:200], a, b)
         elif kind == "pairlist":
             a = parse_impl(iout[i]); b = parse_model(mout[m]); a0 = parse_impl(iout[obj["i"][0]])
             run.count("pairlist/" + case_key(obj["case"]) + "/%g" % obj["amp"], True)
